@@ -10,3 +10,6 @@ pub use ext::*;
 
 pub mod algo;
 pub mod util;
+
+#[cfg(yui_verif)]
+pub mod verif;
